@@ -118,3 +118,27 @@ Definition obs (c : call) : nat * option N := (fst c, option_map snd (snd c)).
    popped), or its own index when it is called without a node *)
 Definition printed (c : call) : nat * option N :=
   match snd c with Some nd => (fst nd, Some (snd nd)) | None => (fst c, None) end.
+
+(* ---------- what the deferred calls do to the panic state ---------- *)
+(* a deferred function is plain, calls recover() (directly), or panics again *)
+Inductive dkind := DPlain | DRecover | DPanic.
+
+(* [cur] = a panic is in flight.  Returns what each recover() reported, and
+   whether the function ends panicking (Go: a panic raised while deferred calls
+   run replaces the current one and the remaining deferred calls still run;
+   recover stops the panic and the function returns normally) *)
+Fixpoint outcome (kinds : list dkind) (cs : list call) (cur : bool) : list bool * bool :=
+  match cs with
+  | [] => ([], cur)
+  | c :: r =>
+    match nth (fst c) kinds DPlain with
+    | DPlain => outcome kinds r cur
+    | DRecover => let '(l, f) := outcome kinds r false in (cur :: l, f)
+    | DPanic => outcome kinds r true
+    end
+  end.
+
+Definition machine_outcome (sh : shape) (kinds : list dkind) (rs : list reg) (cur : bool) : list bool * bool :=
+  outcome kinds (machine_eff sh rs) cur.
+Definition spec_outcome (sh : shape) (kinds : list dkind) (rs : list reg) (cur : bool) : list bool * bool :=
+  outcome kinds (spec sh rs) cur.
